@@ -28,18 +28,8 @@ impl<A> ActorHandle<A> {
         (self.join_fn)()
     }
 
-    pub fn detach(mut self) {
-        if let Some(detach_fn) = self.detach_fn.take() {
-            detach_fn();
-        }
-    }
-}
-
-/// Dropping the handle must not cancel the actor, whatever the runtime's task type does on drop
-/// (a `smol::Task` cancels its task unless it is detached).
-impl<A> Drop for ActorHandle<A> {
-    fn drop(&mut self) {
-        if let Some(detach_fn) = self.detach_fn.take() {
+    pub fn detach(self) {
+        if let Some(detach_fn) = self.detach_fn {
             detach_fn();
         }
     }
